@@ -341,10 +341,44 @@ HexVerdict(o, a64) ==
 RexEmitted(o) == o.m = 64 /\ \E j \in 1..Len(o.b) : o.b[j] >= 64 /\ o.b[j] <= 79
 
 ShortEmitted(o) == Len(o.b) <= 4 /\ \E j \in 1..Len(o.ops) : o.ops[j].t \in {"l", "lb"}
-EmittedOptsOk(o, opts) == /\ ExpectedOpts(o.opt) \subseteq opts
+\* mod_mr and mod_rm are contradictory hints: when both are given the text has to show at least one of them
+HintsOk(G, opts) == LET M == G \ opts IN M = {} \/ ({"modmr", "modrm"} \subseteq G /\ M \subseteq {"modmr", "modrm"} /\ Cardinality(M) = 1)
+GivenOptsOk(o, opts) == opts \subseteq ExpectedOpts(o.opt) /\ HintsOk(ExpectedOpts(o.opt), opts)
+EmittedOptsOk(o, opts) == /\ HintsOk(ExpectedOpts(o.opt), opts)
                           /\ opts \ ExpectedOpts(o.opt) \subseteq {"rex", "short"}
                           /\ ("rex" \in opts \ ExpectedOpts(o.opt) => RexEmitted(o))
                           /\ ("short" \in opts \ ExpectedOpts(o.opt) => ShortEmitted(o))
+
+\* ------------------------------------------------------------------------------------------------------------
+\* the byte side of the decorations: what the appended bytes MEAN (Intel SDM vol. 2, 2.7 EVEX prefix: P2 = z L'L b V' aaa)
+\*   aaa  = opmask register {k}, z = zeroing {z}
+\*   b    = broadcast {1toN} with a memory operand; on a register-only form static rounding + SAE: the row that allows embedded
+\*          rounding reads L'L as the rounding mode {rn|rd|ru|rz-sae}, a row that only allows SAE means {sae}
+\* The text has to denote the decorations that were GIVEN (all of them: {er} and {sae} given together are {r?-sae}) or the ones
+\* the bytes mean (EMITTED).  Where both readings coincide - every accepted request of a correct encoder - nothing changes.
+\* ------------------------------------------------------------------------------------------------------------
+LegacyPrefixes == {102, 103, 242, 243, 240, 38, 46, 54, 62, 100, 101}
+RECURSIVE SkipLegacy(_, _)
+SkipLegacy(b, j) == IF j <= Len(b) /\ b[j] \in LegacyPrefixes THEN SkipLegacy(b, j + 1) ELSE j
+EvexP2(o) == LET j == SkipLegacy(o.b, 1) IN
+             IF j + 3 <= Len(o.b) /\ o.b[j] = 98 /\ (o.m = 64 \/ o.b[j + 1] >= 192) THEN o.b[j + 3] ELSE -1      \* 62 /r with mod # 3 is BOUND in 32-bit mode
+CapEr(o) == IF "cap" \in DOMAIN o THEN o.cap[1] = 1 ELSE o.er >= 0
+HasMemOp(o) == \E j \in 1..Len(o.ops) : o.ops[j].t = "m"
+EmittedDeco(o) ==       \* the request with its decorations replaced by what the EVEX prefix says
+  LET p2 == EvexP2(o)
+      bb == (p2 \div 16) % 2
+      ll == (p2 \div 32) % 4
+      rnd == ~HasMemOp(o) /\ bb = 1
+  IN [o EXCEPT !.k = p2 % 8, !.z = p2 \div 128,
+               !.er = IF rnd /\ CapEr(o) THEN ll ELSE -1,
+               !.sae = IF rnd /\ ~CapEr(o) THEN 1 ELSE 0]
+SameDeco(x, y) == x.k = y.k /\ x.z = y.z /\ x.er = y.er /\ (x.er >= 0 \/ x.sae = y.sae)
+
+MatchVerdict(exp, act, pe) ==
+  LET r == Match(exp, act, 1, pe) IN
+  IF r[1] = 0 THEN <<"ok">>
+  ELSE <<"R", IF r[2] <= Len(exp) THEN exp[r[2]].role ELSE "trailing-text", r[1],
+         IF r[2] <= Len(exp) THEN exp[r[2]].lab ELSE "<end>", IF r[1] <= Len(act) THEN act[r[1]].s ELSE "<end>">>
 
 Verdict(o) ==
   LET act == Canon(o.tk)
@@ -356,10 +390,14 @@ Verdict(o) ==
       bad == {j \in 1..Len(exp) : exp[j].k = "bad"}
   IN
   IF bad # {} THEN <<"U", exp[CHOOSE j \in bad : TRUE].role>>
-  ELSE IF isx /\ leg # "O" /\ opts # ExpectedOpts(o.opt) /\ ~(leg = "L" /\ EmittedOptsOk(o, opts)) THEN <<"R", "prefix", 0, "options", "options">>
-  ELSE LET r == Match(exp, act, 1, pe) IN
-    IF r[1] # 0 THEN <<"R", IF r[2] <= Len(exp) THEN exp[r[2]].role ELSE "trailing-text", r[1],
-                       IF r[2] <= Len(exp) THEN exp[r[2]].lab ELSE "<end>", IF r[1] <= Len(act) THEN act[r[1]].s ELSE "<end>">>
+  ELSE IF isx /\ leg # "O" /\ ~GivenOptsOk(o, opts) /\ ~(leg = "L" /\ EmittedOptsOk(o, opts)) THEN <<"R", "prefix", 0, "options", "options">>
+  ELSE LET given == MatchVerdict(exp, act, pe)
+           r == IF given[1] = "ok" \/ ~isx \/ leg # "L" \/ EvexP2(o) < 0 THEN given
+                ELSE LET e == EmittedDeco(o) IN
+                     IF SameDeco(e, o) THEN given
+                     ELSE IF MatchVerdict(DenoteX86(e), act, pe)[1] = "ok" THEN <<"ok">> ELSE given
+       IN
+    IF r[1] # "ok" THEN r
     ELSE IF leg = "L" THEN
       (IF o.nl # 1 THEN <<"R", "log-lines", 0, "one line", "several">>
        ELSE IF o.cm # o.ic THEN <<"R", "inline-comment", 0, o.ic, o.cm>>
